@@ -79,6 +79,8 @@ func TestLbvcBoundedReaders(t *testing.T) {
 	}
 	// committed readers: the watermark in the reader's own segment, and in the next one
 	cfgs = append(cfgs, cfg{100, 5, 2, true, 1}, cfg{100, 5, 2, true, 3}, cfg{100, 5, 0, true, 3})
+	// a committed reader started inside the uncommitted tail (watermark + 1 < start <= newest offset, K55)
+	cfgs = append(cfgs, cfg{100, 5, 3, true, 1}, cfg{100, 5, 4, true, 0})
 	// run one sequence from scratch on the real log
 	run := func(c cfg, seq []lbvcROp) {
 		dir, err := os.MkdirTemp(tmpBase, "lbvc-rd-")
